@@ -22,40 +22,45 @@ Proof.
   intros t e Hwf [Hl Hd]. rewrite extents_list_merge. apply merge_rel; [assumption | assumption | lia].
 Qed.
 
-Lemma subp_pat_spec : forall sl p, subp_pat sl p = sub_pattern sl p.
-Proof.
-  induction sl as [|s sr IH]; intros p; [reflexivity|].
-  destruct p as [|x r]; [destruct s; reflexivity|].
-  destruct s; cbn [subp_pat sub_pattern]; rewrite IH; reflexivity.
-Qed.
-
 Lemma in_ty_le_imax : forall t x, in_ty t x = true -> x <= imax t.
 Proof. intros t x H. unfold in_ty in H. lia. Qed.
 
 Lemma subp_core : forall t sl xs, Forall2 slice_ok sl xs -> forall p, wf_ity t -> Forall2 (ext_rel t) p xs ->
   exists v, subp_vals t sl xs = Some v /\ length v = length (subp_pat sl p)
-            /\ map (cast t) (extents_all (subp_pat sl p) v) = sub_shape sl xs.
+            /\ map (cast t) (extents_all (subp_pat sl p) v) = sub_shape sl xs
+            /\ subp_pat sl p = sub_pattern sl p.
 Proof.
   intros t sl xs Hok. induction Hok as [|s x sr xr Hs Hr IH]; intros p Hwf Hrel.
   - exists []. inversion Hrel; subst. repeat split; reflexivity.
   - inversion Hrel as [|po x' pr xr' [Hin Hpo] Hrel']; subst.
-    destruct (IH pr Hwf Hrel') as [v [Hv [Hlen Hmap]]].
-    destruct s as [|k|a b]; cbn [subp_vals subp_pat sub_shape].
+    destruct (IH pr Hwf Hrel') as [v [Hv [Hlen [Hmap Hpat]]]].
+    assert (Hx := in_ty_le_imax t x Hin). assert (H64 := imax_lt_2_64 t Hwf).
+    destruct s as [|k|a b|a b]; cbn [subp_vals subp_pat sub_shape sub_pattern].
     + rewrite Hv. cbn [obind]. exists (x :: v). split; [reflexivity|]. split; [cbn [length]; lia|].
+      split; [|rewrite Hpat; reflexivity].
       destruct po as [n|]; cbn [extents_all map]; rewrite Hmap.
       * rewrite <- Hpo. reflexivity.
       * rewrite cast_fix by assumption. reflexivity.
     + exists v. repeat split; assumption.
-    + cbn [slice_ok] in Hs. destruct Hs as [Ha [Hab Hbx]]. assert (Hx := in_ty_le_imax t x Hin).
+    + cbn [slice_ok] in Hs. destruct Hs as [Ha [Hab Hbx]].
       rewrite (cast_id t a) by (try assumption; lia). rewrite (cast_id t b) by (try assumption; lia).
       rewrite (aop_small t (b - a)) by (try assumption; lia). cbn [obind]. rewrite Hv. cbn [obind].
       exists (cast t (b - a) :: v). split; [reflexivity|]. split; [cbn [length]; lia|].
+      split; [|rewrite Hpat; reflexivity].
       cbn [extents_all map]. rewrite Hmap. rewrite !(cast_id t (b - a)) by (try assumption; lia). reflexivity.
+    + cbn [slice_ok] in Hs. destruct Hs as [Ha [Hab Hbx]].
+      rewrite (cast_id t a) by (try assumption; lia). rewrite (cast_id t b) by (try assumption; lia).
+      rewrite (aop_small t (b - a)) by (try assumption; lia). cbn [obind]. rewrite Hv. cbn [obind].
+      rewrite (szw_id (b - a)) by lia.
+      exists (cast t (b - a) :: v). split; [reflexivity|]. split; [cbn [length]; lia|].
+      split; [|rewrite Hpat; reflexivity].
+      cbn [extents_all map]. rewrite Hmap. rewrite (cast_id t (b - a)) by (try assumption; lia). reflexivity.
 Qed.
 
 (* submdspan_extents(ext, slices...): for EVERY rank, pattern, index type and slice choice whose values meet
    the precondition of [mdspan.sub.extents], the result has exactly the kept dimensions: extent and
-   static-ness of the full_extent ones, last - first (dynamic) for the pair ones; no overflow on the way *)
+   static-ness of the full_extent ones, last - first (dynamic) for the pairs of run-time values, last - first
+   (static) for the pairs of integral constants; no overflow on the way *)
 Theorem sub_extents_p_spec : forall t e sl, wf_ity t -> wf_ext t e ->
   Forall2 slice_ok sl (extents_list t e) ->
   exists r, sub_extents_p t e sl = Some r
@@ -64,10 +69,10 @@ Theorem sub_extents_p_spec : forall t e sl, wf_ity t -> wf_ext t e ->
             /\ wf_ext t r.
 Proof.
   intros t e sl Hwf Hwe Hok.
-  destruct (subp_core t sl (extents_list t e) Hok (pat e) Hwf (extents_rel t e Hwf Hwe)) as [v [Hv [Hlen Hmap]]].
+  destruct (subp_core t sl (extents_list t e) Hok (pat e) Hwf (extents_rel t e Hwf Hwe)) as [v [Hv [Hlen [Hmap Hpat]]]].
   unfold sub_extents_p. rewrite Hv. cbn [obind]. eexists. split; [reflexivity|]. split; [|split].
   - rewrite ext_from_pack_all by assumption. exact Hmap.
-  - rewrite <- (subp_pat_spec sl (pat e)). unfold ext_from_pack, ext_from_span.
+  - rewrite <- Hpat. unfold ext_from_pack, ext_from_span.
     destruct (rank_dynamic (subp_pat sl (pat e)) =? 0)%nat; [reflexivity|].
     destruct (length _ =? _)%nat; reflexivity.
   - unfold ext_from_pack. apply ext_from_span_wf; [exact Hwf|]. right. rewrite map_length. exact Hlen.
@@ -149,3 +154,18 @@ Theorem u16_index_overflows :
   strided_map u16 (strided_ctor u16 (ext_from_pack u16 [None] [65535]) [65535]) [65535] = None
   /\ strided_map u16 (strided_ctor u16 (ext_from_pack u16 [None] [65535]) [46340]) [46340] = Some 43024.
 Proof. split; vm_compute; reflexivity. Qed.
+
+(** * a layout_stride mapping given the strides of a contiguous mapping is that mapping *)
+Lemma lay_strides_cast : forall l t e, wf_ity t -> map (cast t) (lay_strides l t e) = lay_strides l t e.
+Proof.
+  intros l t e Hwf. unfold lay_strides. rewrite map_map. apply map_ext. intros r.
+  unfold lay_stride_raw. destruct l; apply cast_idem; exact Hwf.
+Qed.
+
+Theorem strided_of_contiguous : forall l t e idx, wf_ity t ->
+  strided_map t (strided_ctor t e (lay_strides l t e)) idx = lay_map l t e idx
+  /\ st_strides (strided_ctor t e (lay_strides l t e)) = lay_strides l t e.
+Proof.
+  intros l t e idx Hwf. unfold strided_map, strided_ctor, lay_map. cbn [st_strides].
+  rewrite lay_strides_cast by exact Hwf. split; reflexivity.
+Qed.
